@@ -178,11 +178,37 @@ def named_conditions(fn: Fn) -> dict:
         if isinstance(n, (ast.Nonlocal, ast.Global)):
             nl |= set(n.names)
     return {k: v for k, v in defs.items() if counts.get(k) == 1 and k not in fn.params and k not in nl
-            and (isinstance(v, (ast.BoolOp, ast.Compare)) or (isinstance(v, ast.UnaryOp) and isinstance(v.op, ast.Not)))}
+            and (isinstance(v, (ast.BoolOp, ast.Compare)) or (isinstance(v, ast.UnaryOp) and isinstance(v.op, ast.Not))
+                 or (isinstance(v, ast.Call) and isinstance(v.func, ast.Name) and v.func.id in ("any", "all")))}
+
+
+def named_predicates(fn: Fn) -> dict:
+    """zero-argument closures visible from fn whose whole body is `return <boolean expression>` (`def is_current(): return
+    latest == _id`): naming a guard as a predicate is a behaviour-preserving edit; rules that inspect a test look through it."""
+    out = {}
+    scope = fn
+    while scope is not None:
+        for c in scope.children:
+            if c.is_func and not c.params and c.name not in out:
+                body = [b for b in c.node.body if not (isinstance(b, ast.Expr) and isinstance(b.value, ast.Constant))]
+                if len(body) == 1 and isinstance(body[0], ast.Return) and isinstance(body[0].value, (ast.Compare, ast.BoolOp, ast.UnaryOp)):
+                    out[c.name] = body[0].value
+        scope = scope.parent if scope.parent is not None and scope.parent.is_func else None
+    return out
 
 
 def effective_test(fn: Fn, test: ast.AST, depth: int = 3) -> ast.AST:
-    """`test` with named conditions replaced by the expressions they name."""
+    """`test` with named conditions (and zero-argument predicate closures) replaced by the expressions they name."""
+    preds = named_predicates(fn) if any(isinstance(x, ast.Call) and isinstance(x.func, ast.Name) and not x.args and not x.keywords for x in ast.walk(test)) else {}
+    if preds and depth > 0:
+        import copy as _copy
+
+        class _P(ast.NodeTransformer):
+            def visit_Call(self, n):
+                if isinstance(n.func, ast.Name) and n.func.id in preds and not n.args and not n.keywords:
+                    return _copy.deepcopy(preds[n.func.id])
+                return self.generic_visit(n)
+        test = _P().visit(_copy.deepcopy(test))
     defs = named_conditions(fn)
     if not defs or depth <= 0 or not any(isinstance(x, ast.Name) and x.id in defs for x in ast.walk(test)):
         return test
@@ -269,3 +295,33 @@ def names_stepped_by_one(fn: Fn) -> List[str]:
             if c and c not in out:
                 out.append(c)
     return out
+
+
+
+def inline_locals(fn: Fn, e: Optional[ast.AST], depth: int = 2) -> Optional[ast.AST]:
+    """`e` with every local of fn that is assigned exactly once (not a parameter, not nonlocal / global, not augmented) replaced by
+    the value it names: giving a sub-expression a name is a behaviour-preserving edit when nothing is evaluated in between that the
+    expression depends on; rules that match the shape of an argument look through such names."""
+    if e is None or depth <= 0:
+        return e
+    defs, counts = {}, {}
+    nl = set()
+    for n in fn.direct_nodes():
+        if isinstance(n, ast.Assign) and len(n.targets) == 1 and isinstance(n.targets[0], ast.Name):
+            counts[n.targets[0].id] = counts.get(n.targets[0].id, 0) + 1
+            defs[n.targets[0].id] = n.value
+        elif isinstance(n, (ast.AugAssign, ast.NamedExpr, ast.For)) and isinstance(getattr(n, "target", None), ast.Name):
+            counts[n.target.id] = counts.get(n.target.id, 0) + 2
+        elif isinstance(n, (ast.Nonlocal, ast.Global)):
+            nl |= set(n.names)
+    ok = {k: v for k, v in defs.items() if counts.get(k) == 1 and k not in fn.params and k not in nl}
+    if not ok or not any(isinstance(x, ast.Name) and x.id in ok for x in ast.walk(e)):
+        return e
+    import copy
+
+    class _S(ast.NodeTransformer):
+        def visit_Name(self, n):
+            if isinstance(n.ctx, ast.Load) and n.id in ok:
+                return copy.deepcopy(ok[n.id])
+            return n
+    return inline_locals(fn, _S().visit(copy.deepcopy(e)), depth - 1)
